@@ -179,6 +179,15 @@ def worker(case: Dict[str, Any]) -> CaseResult:
             name = "pkg_%s_%s" % ("allin" if inc_in else "usedin", "allen" if inc_en else "useden")
             cfg_full = dict(cfg_base)
             cfg_full.update({"include_all_inputs": inc_in, "include_all_enums": inc_en, "target_package_name": name})
+            if case["idx"] % 2 == 1 and not (inc_in and inc_en):
+                # the target already holds an OLDER generation made with the opposite flags (everything included): what the pruned package contains must not
+                # depend on what lay there before
+                older = dict(cfg_full, include_all_inputs=True, include_all_enums=True)
+                write_case(root, sdl, queries, older)
+                with warnings.catch_warnings():
+                    warnings.simplefilter("ignore")
+                    if run_cli(root, "client", older).ok:
+                        count("generated_over_older_unpruned_package")
             cfg = write_case(root, sdl, queries, cfg_full)
             with warnings.catch_warnings():
                 warnings.simplefilter("ignore")
